@@ -179,6 +179,15 @@ Fixpoint leading_fraction (x scale : Z) (ovf : bool) (l : list ascii) : Z * Z * 
   | [] => (x, scale, [])
   end.
 
+Definition frac_part (r1 : list ascii) : Z * Z * list ascii * bool :=
+  match r1 with
+  | c :: t => if Ascii.eqb c "." then
+                let '(f, sc, r2) := leading_fraction 0 1 false t in
+                (f, sc, r2, negb (Nat.eqb (length r2) (length t)))
+              else (0, 1, r1, false)
+  | [] => (0, 1, r1, false)
+  end.
+
 (* v*unit + f*unit/scale.  Go computes the fraction in float64: float64(f)*(float64(unit)/scale);
    for the at-most-three-digit fractions of the modelled logs this is exact; anything longer
    than 15 digits is outside the model. *)
@@ -194,12 +203,7 @@ Fixpoint dur_loop (fuel : nat) (d : Z) (l : list ascii) : outcome Z :=
       | None => Err "duration"
       | Some (v, r1) =>
         let pre := negb (Nat.eqb (length r1) (length l)) in
-        let '(f, scale, r2, post) :=
-          match r1 with
-          | "." :: t => let '(f, sc, r2) := leading_fraction 0 1 false t in
-                        (f, sc, r2, negb (Nat.eqb (length r2) (length t)))
-          | _ => (0, 1, r1, false)
-          end in
+        let '(f, scale, r2, post) := frac_part r1 in
         if negb (pre || post) then Err "duration" else
         let '(u, r3) := span_unit r2 in
         match u with
